@@ -122,6 +122,8 @@ fn build_path(seq: &[u64], trailing: bool) -> String {
 
 pub fn run(ctx: &Ctx) -> Report {
     crate::env::set_log_mode(crate::env::LOG_OFF);
+    // this property's statement says nothing about the key provider: judge outcomes only
+    crate::e2e::set_judge_provider(false);
     let max_segs: u32 = if ctx.tier.thorough() { 6 } else { 5 };
     let k = SEGMENTS.len() as u64;
     let nseq = enumr::seq_count(k, max_segs);
